@@ -78,6 +78,11 @@ def o_norm(case, T):
             T.nontrivial()
     else:
         T.cls("plain")
+    # a reversed region (start > stop, both inside the array) describes the empty index set
+    if ns.start <= n and ns.stop <= n:
+        require(R.roi_is_empty(ns) == (len(want) == 0), "roi_is_empty(%r) is %r but X[%r] has %d elements (n=%d)", ns, R.roi_is_empty(ns), ns, len(want), n)
+        if ns.start > ns.stop:
+            T.cls("reversed")
     # queries on regions inside the array
     if ns.start <= ns.stop <= n:
         require(R.roi_shape(ns) == (len(want),), "roi_shape(%r)=%r, numpy %d", ns, R.roi_shape(ns), len(want))
@@ -123,11 +128,27 @@ def o_norm_nd(case, T):
     require(got.size == want.size and (got.ravel() == want.ravel()).all(), "X[norm(%r)] != X[%r] for shape %r", ss, ss, shape)
     for a in ns:
         require(a.start >= 0 and a.stop >= 0, "negative bound after normalise %r", ns)
+    if all(a.start <= n and a.stop <= n for a, n in zip(ns, shape)):
+        # reversed axes (start > stop) describe an empty index set, whatever their number
+        require(R.roi_is_empty(ns) == (got.size == 0), "roi_is_empty(%r) is %r but X[...] has %d elements (shape %r)", ns, R.roi_is_empty(ns), got.size, shape)
+        nrev = sum(1 for a in ns if a.start > a.stop)
+        if nrev:
+            T.cls("reversed_axes_%d" % min(nrev, 3))
     if all(a.start <= a.stop <= n for a, n in zip(ns, shape)):
         require(R.roi_shape(ns) == got.shape, "roi_shape N-d %r vs %r", R.roi_shape(ns), got.shape)
         require(R.roi_is_empty(ns) == (got.size == 0), "roi_is_empty N-d")
         require(R.roi_is_full(ns, shape) == (got.size == X.size and X.size > 0 or got.shape == X.shape), "roi_is_full N-d %r %r", ns, shape)
     T.nontrivial()
+
+
+def e_norm_nd(tier):
+    """Every explicit non-negative region (forward, zero-width, reversed) of small 2-D / 3-D arrays."""
+    import itertools
+
+    for shape in ((3, 2), (2, 2, 2)) if tier == "quick" else ((3, 2), (3, 4), (2, 2, 2), (2, 3, 2), (2, 2, 2, 2)):
+        per_axis = [[["s", a, b] for a in range(n + 1) for b in range(n + 1)] for n in shape]
+        for ss in itertools.product(*per_axis):
+            yield {"shape": list(shape), "ss": [list(x) for x in ss]}
 
 
 def _st_slice_for(n):
@@ -404,6 +425,7 @@ def o_points(case, T):
 
 def build(chk: Check) -> None:
     chk.sub("norm_enum", o_norm, enum=e_norm, exhaustive_tiers=("thorough",), budget_s={"quick": 60, "thorough": 600})
+    chk.sub("norm_nd_enum", o_norm_nd, enum=e_norm_nd, exhaustive_tiers=("quick", "thorough"))
     chk.sub("norm_nd", o_norm_nd, strategy=s_norm_nd(), n={"quick": 1500, "thorough": 100000})
     chk.sub("norm_big", o_norm_big, strategy=s_norm_big(), n={"quick": 1500, "thorough": 100000})
     chk.sub("isect_enum", o_isect, enum=e_isect, exhaustive_tiers=("thorough",), budget_s={"quick": 60, "thorough": 600})
